@@ -1,6 +1,15 @@
 //! Shared case descriptions, builders, strategies and the model-based judge used by the `core`
 //! binary (C01-C14, C20) and by the Bevy checks.
+extern crate self as mv_core;
+
 pub mod anim;
 pub mod desc;
+pub mod fuzzdrv;
 pub mod gencheck;
 pub mod oracle;
+pub mod c_animator;
+pub mod c_easing;
+pub mod c_lerp;
+pub mod c_robust;
+pub mod c_timeline;
+pub mod c_timescale;
